@@ -76,14 +76,22 @@ fn irefs(family: &str, op: &str, n: usize) -> Result<u64, String> {
 }
 
 /// (I(4n) − I(2n)) / (I(2n) − I(n)): 2 for linear, 4 for quadratic; differences cancel start-up cost.
+pub fn linear_one(family: &str, op: &str, m: &mut Merged) {
+    linear_jobs(Tier::Quick, vec![(family.to_string(), op.to_string())], m)
+}
+
 pub fn linear_stage(tier: Tier, m: &mut Merged) {
-    let base: usize = 16 * 1024;
     let mut jobs: Vec<(String, String)> = vec![];
     for f in FAMILIES {
         for op in LIN_OPS {
             jobs.push((f.to_string(), op.to_string()));
         }
     }
+    linear_jobs(tier, jobs, m)
+}
+
+fn linear_jobs(tier: Tier, jobs: Vec<(String, String)>, m: &mut Merged) {
+    let base: usize = 16 * 1024;
     let scale: Vec<usize> = if tier == Tier::Thorough { vec![1, 4] } else { vec![1] };
     let results: Arc<Mutex<Vec<(String, String, usize, Result<[u64; 3], String>)>>> = Arc::new(Mutex::new(vec![]));
     let queue: Arc<Mutex<Vec<(String, String, usize)>>> = Arc::new(Mutex::new(jobs.iter().flat_map(|(f, o)| scale.iter().map(move |s| (f.clone(), o.clone(), base * s))).collect()));
